@@ -419,6 +419,76 @@ def run(ctx, anchors=None):
                      "a later %s->%s[%s] reads out of bounds" % (fld, src, f.name, owner, cont, owner, cont, fld))
     ctx.floor("R15.3", ndefs, 1, "non-constant definitions of the transaction index fields")
 
+    # ---- R15.3b subscripts with a CONSTANT index (vin[0], amounts[cond ? i : 0]) on containers sized by the spending transaction
+    # are only in bounds if that transaction has an input: every accepting path of Instance::parse_transaction must have decided
+    # "vin is not empty" (G-SYM outcomes; the test may live in parse_tx or a helper of the same file)
+    from .. import symx as _sx
+    const_subs = []
+    for f in fb.funcs.values():
+        if not auth(f):
+            continue
+        for n in f.nodes():
+            base = idx = None
+            if n["k"] == "opcall" and n.get("op") == "[]" and len(n.get("args", [])) == 2:
+                base, idx = n["args"]
+            elif n["k"] == "index":
+                base, idx = n.get("base"), n.get("idx")
+            if base is None or idx is None:
+                continue
+            bt = astq.estr(base)
+            if not (bt.endswith("vin") or bt.split(".")[-1].split(">")[-1] == "amounts" or bt == "amounts"):
+                continue
+            arms = [idx]
+            while arms and any(a.get("k") in ("cond", "cast", "paren") for a in arms):
+                nxt = []
+                for a in arms:
+                    if a.get("k") == "cond":
+                        nxt += [a["then"], a["else"]]
+                    elif a.get("k") in ("cast", "paren"):
+                        nxt.append(a["e"])
+                    else:
+                        nxt.append(a)
+                arms = nxt
+            if any(astq.const_value(a) is not None for a in arms):
+                const_subs.append((f, n))
+    ctx.site(len(const_subs))
+    if const_subs:
+        pt = fb.fn("Instance::parse_transaction")
+        X = _sx.Explorer(prog, inline=lambda fn, n: fn.file == pt.file and fn.rec is None, transparent=lambda n: True)
+        try:
+            outs = X.explore(pt, this=("a", "this"), limit=20000)
+        except _sx.Unsupported as e:
+            raise AnalysisBroken("R15.3b: parse_transaction: %s" % e)
+        acc = [o for o in outs if o.status == "ret" and o.ret == _sx.C(1)]
+        if not acc:
+            raise AnalysisBroken("R15.3b: no accepting path of parse_transaction")
+
+        def nonempty_vin(o):
+            for (t, v) in o.conds:
+                def is_vin(x):
+                    return isinstance(x, tuple) and x[0] == "f" and x[2] == "vin"
+                if isinstance(t, tuple) and t[:2] == ("ap", "m:empty") and is_vin(t[2]) and not v:
+                    return True
+                if isinstance(t, tuple) and t[:2] == ("ap", "m:size") and is_vin(t[2]) and v:
+                    return True
+                if isinstance(t, tuple) and t[0] == "ap" and t[1] == "<" and len(t) == 4:
+                    a, b = t[2], t[3]
+                    if a == _sx.C(0) and isinstance(b, tuple) and b[:2] == ("ap", "m:size") and is_vin(b[2]) and v:
+                        return True
+                    if isinstance(a, tuple) and a[:2] == ("ap", "m:size") and is_vin(a[2]) and b == _sx.C(1) and not v:
+                        return True
+                if isinstance(t, tuple) and t[0] == "eq" and _sx.C(0) in t[1:] and not v:
+                    o_ = t[2] if t[1] == _sx.C(0) else t[1]
+                    if isinstance(o_, tuple) and o_[:2] == ("ap", "m:size") and is_vin(o_[2]):
+                        return True
+            return False
+        bad = [o for o in acc if not nonempty_vin(o)]
+        f0, n0 = const_subs[0]
+        ctx.inst(not bad, "R15.3", "transaction-has-an-input", pt.loc(),
+                 "all %d accepting paths of parse_transaction decided that the transaction has an input (needed by %d constant-index subscript(s), e.g. %s at %s)" % (len(acc), len(const_subs), astq.estr(n0)[:50], f0.loc(n0)),
+                 "parse_transaction accepts a transaction without inputs (%d of %d accepting paths never test vin for emptiness), but %s at %s indexes it with a constant: "
+                 "`btcdeb --tx=01000000000000000000 '[OP_1]'` reads amounts[0] of an empty vector" % (len(bad), len(acc), astq.estr(n0)[:60], f0.loc(n0)))
+
     # ---------------------------------------------------------------- R15.4
     nst = 0
     for f in fb.funcs.values():
@@ -452,6 +522,105 @@ def run(ctx, anchors=None):
             ctx.inst(ok, "R15.4", key, f.loc(n), "store %s[%s] into %d elements: %s" % (b["n"], astq.estr(idx), size, why),
                      "store `%s` into the %d-element array %s is not bounded: %s" % (astq.estr(n)[:50], size, b["n"], why))
     ctx.floor("R15.4", nst, 4, "stores into fixed-size arrays with a varying index")
+
+    # ---- R15.4b length-limited writes (snprintf / vsnprintf / strncpy / fgets) into a local array: destination offset + limit
+    # never exceeds the array. The destination is the array itself (limit: a constant <= its size, or the very expression that
+    # sizes a variable-length array) or a local pointer into it; in the second case the block that declares the pointer is
+    # evaluated with G-SYM and `limit + (destination - array)` must fold to a constant <= the array's size.
+    BOUNDED = {"snprintf": (0, 1), "vsnprintf": (0, 1), "strncpy": (0, 2), "fgets": (0, 1)}
+    nbw = 0
+    for f in fb.funcs.values():
+        if not auth(f):
+            continue
+        arrays = {}
+        ptr_decl = {}
+        for n in f.nodes():
+            if n["k"] == "decl":
+                for d in n["decls"]:
+                    ty = d.get("ty") or ""
+                    if "[" in ty and ty.endswith("]"):
+                        arrays[d["d"]] = (d["n"], d.get("arraysize"), ty[ty.index("[") + 1:-1])
+                    elif ty.rstrip().endswith("*"):
+                        ptr_decl[d["d"]] = n
+        if not arrays:
+            continue
+        blocks = {}
+        for n in f.nodes():
+            if not (astq.is_call(n) and n.get("n") in BOUNDED and len(n.get("args", [])) > max(BOUNDED[n["n"]])):
+                continue
+            di, si = BOUNDED[n["n"]]
+            dst, lim = n["args"][di], n["args"][si]
+            while dst is not None and dst.get("k") in ("cast", "paren"):
+                dst = dst["e"]
+            if dst is None or dst.get("k") != "ref" or dst.get("dk") != "local":
+                continue
+            key = "bounded-write:%s@%s:%s" % (n["n"], f.name, f.loc(n).split(":")[-1])
+            if dst["d"] in arrays:
+                nm, N, sz = arrays[dst["d"]]
+                nbw += 1
+                ctx.site()
+                cv = astq.const_value(lim)
+                if N is not None:
+                    okb = cv is not None and cv <= N
+                    if cv is None:
+                        lt = astq.estr(lim).replace(" ", "")
+                        okb = lt in ("sizeof(%s)" % nm, "sizeof%s" % nm)
+                    ctx.inst(okb, "R15.4", key, f.loc(n), "%s writes at most %s bytes into %s[%d]" % (n["n"], astq.estr(lim), nm, N),
+                             "%s may write %s bytes into %s[%d]" % (n["n"], astq.estr(lim), nm, N))
+                else:
+                    a_, b_ = astq.estr(lim).replace(" ", "").strip("()"), sz.replace(" ", "").strip("()")
+                    ctx.inst(a_ == b_, "R15.4", key, f.loc(n), "%s is limited by the expression that sizes %s[%s]" % (n["n"], nm, sz),
+                             "%s is limited by %s but %s has %s elements" % (n["n"], astq.estr(lim), nm, sz))
+                continue
+            if dst["d"] not in ptr_decl:
+                continue
+            dn = ptr_decl[dst["d"]]
+            blk = None
+            for a in f.ancestors(dn):
+                if a.get("k") in ("compound", "block"):
+                    blk = a
+                    break
+            if blk is None:
+                continue
+            if id(blk) not in blocks:
+                X = _sx.Explorer(prog, inline=lambda fn, n_: False, transparent=lambda n_: True)
+                try:
+                    blocks[id(blk)] = X.explore(f, this=("a", "this"), body=blk, limit=4000)
+                except _sx.Unsupported as e:
+                    raise AnalysisBroken("R15.4b: %s: %s" % (f.name, e))
+            seen = []
+            for o in blocks[id(blk)]:
+                def evs(lst):
+                    for e in lst:
+                        yield e
+                        if getattr(e, "body", None):
+                            for x in evs(e.body):
+                                yield x
+                for e in evs(o.events):
+                    if e.node is n and e.kind == "call" and len(e.terms) > max(di, si):
+                        seen.append((e.terms[di], e.terms[si]))
+            if not seen:
+                continue
+            nbw += 1
+            ctx.site()
+            verdicts = []
+            for (dt, lt) in seen:
+                c0, parts = _sx.lin_parts(dt)
+                arrs = [(t, k) for (t, k) in parts.items() if isinstance(t, tuple) and t[0] == "a" and any(t[1] == nm for (nm, N, sz) in arrays.values())]
+                if len(arrs) != 1 or arrs[0][1] != 1:
+                    verdicts.append((None, dt, lt))
+                    continue
+                arr = arrs[0][0]
+                N = [N_ for (nm, N_, sz) in arrays.values() if nm == arr[1]][0]
+                tot = _sx.lin_add(lt, _sx.lin_add(dt, arr, -1))
+                verdicts.append((N is not None and _sx.is_const(tot) and tot[1] <= N, dt, lt, arr[1], N, tot))
+            if any(v[0] is None for v in verdicts):
+                continue      # the destination is not (provably) inside a local array: outside this rule
+            bad = [v for v in verdicts if not v[0]]
+            ctx.inst(not bad, "R15.4", key, f.loc(n), "%s: destination offset + limit folds to a constant within the array on every path" % n["n"],
+                     "%s writes up to %s bytes at %s: offset + limit = %s is not a constant <= %s (the array %s has %s bytes) - the limit grows with the offset "
+                     "instead of shrinking" % ((n["n"], _sx.show(bad[0][2]), _sx.show(bad[0][1]), _sx.show(bad[0][5]), bad[0][4], bad[0][3], bad[0][4]) if bad else ("",) * 7))
+    ctx.floor("R15.4", nbw, 5, "length-limited writes into local arrays")
 
     # ---------------------------------------------------------------- R15.5
     nfg = 0
@@ -820,6 +989,11 @@ def callers_establish(fb, prog, ctor, a, K):
 
 
 MUTANTS = [
+    dict(name="listing-limit-grows-with-offset", file="btcdeb.cpp", find="snprintf(pbuf, 1024 - (pbuf - buf), \"%s\", GetOpName", replace="snprintf(pbuf, 1024 + pbuf - buf, \"%s\", GetOpName", expect=["R15.4:bounded-write:snprintf@main"]),
+    dict(name="listing-limit-ignores-offset", file="btcdeb.cpp", find="snprintf(pbuf, 1024 - (pbuf - buf), \"%s\", HexStr", replace="snprintf(pbuf, 1024, \"%s\", HexStr", expect=["R15.4:bounded-write:snprintf@main"]),
+    dict(name="format-buffer-too-small", file="functions.cpp", find="    snprintf(lfmt, 15, ", replace="    snprintf(lfmt, 16, ", expect=["R15.4:bounded-write:snprintf@print_dualstack"]),
+    dict(name="eval-number-buffer-off-by-one", file="instance.cpp", find="            snprintf(buf, vlen + 1, \"%d\", n);", replace="            snprintf(buf, vlen + 2, \"%d\", n);", expect=["R15.4:bounded-write:snprintf@Instance::eval"]),
+    dict(name="empty-transaction-accepted", file="instance.cpp", find="    if (tx->vin.empty()) {\n        fprintf(stderr, \"error: the transaction has no inputs\\n\");\n        return false;\n    }\n", replace="", expect=["R15.3:transaction-has-an-input"]),
     dict(name="verify-context-not-created-in-btcc", file="value.cpp", find="    static ECCVerifyHandle verify_handle;\n", replace="", expect=["R15.12:verify-context@btcc.cpp"]),
     dict(name="p2sh-empty-stack-assert", file="debugger/interpreter.cpp", find="            if (env.p2shstack.empty())\n                return set_error(serror, SCRIPT_ERR_INVALID_STACK_OPERATION);\n", replace="            assert(!env.p2shstack.empty());\n", expect=["R15.11:assert@"]),
     dict(name="instance-dtor-deletes-shared-tce", file="instance.h", find="        delete env;\n", replace="        delete env;\n        delete tce;\n", expect=["R15.2:single-owner=InterpreterEnv::tce<-Instance::tce"]),
